@@ -154,11 +154,13 @@ Fixpoint digits_of_pos_fuel (fuel : nat) (n : N) (acc : str) : str :=
   end.
 Definition itoa (n : N) : str := digits_of_pos_fuel (S (N.to_nat (N.log2 n))) n [].
 
-(** does the PRIMARY KEY need an index of its own (it then takes sqlite_autoindex_<t>_1) ? *)
-Definition pk_needs_index (t : table) : bool :=
+(** the number of the first UNIQUE autoindex: the PRIMARY KEY takes sqlite_autoindex_<t>_1 when it
+    needs an index of its own (it is not the rowid alias) -- except in a WITHOUT ROWID table whose
+    key is a single INTEGER column, where SQLite builds the key's index after the constraints *)
+Definition first_unique_no (t : table) : N :=
   match t_pk t with
-  | None => false
-  | Some _ => match rowid_alias t with Some _ => false | None => true end
+  | None => 1
+  | Some _ => match int_pk_shape t with Some _ => 1 | None => 2 end
   end.
 
 (** the autoindexes of the inline UNIQUE constraints; a constraint over the same columns as the
@@ -179,7 +181,7 @@ Definition inspect_indexes (ct : ctable) : list index :=
              | Some pk => match part_col_names (i_parts pk) with Some l => [l] | None => [] end
              | None => []
              end in
-  unique_autoindexes t (if pk_needs_index t then 2 else 1) pkc (ct_uniques ct)
+  unique_autoindexes t (first_unique_no t) pkc (ct_uniques ct)
   ++ map inspect_index (t_idx t).
 
 (** ** foreign keys *)
